@@ -53,6 +53,9 @@ type Job struct {
 	HeaderFirst bool `json:"header_first,omitempty"`
 	// Canon: also return the canonical rendering of every object (trace mode; for replays)
 	Canon bool `json:"canon,omitempty"`
+	// Mode "session": for every cut c in Units one scanner on Data[:c] driven by the call script
+	// Calls (0 Scan, 1 Err, 2 Header); the responses are returned in Resp / RespTok
+	Calls []int `json:"calls,omitempty"`
 	// Alloc (cut mode): also report how many MiB the Go heap handed out during the scan
 	Alloc bool `json:"alloc,omitempty"`
 }
@@ -87,6 +90,10 @@ type Obs struct {
 	PrevResumed    []uint64 `json:"prev_resumed,omitempty"`
 	PrevResumedErr int      `json:"prev_resumed_err,omitempty"`
 	StopShort      bool     `json:"stop_short,omitempty"` // fewer than k objects could be scanned
+	// session mode, one entry per call: 0 Scan returned false, 1 Scan returned true (RespTok = the
+	// object), 2 Err() == nil, 3 Err() != nil, 4 Header() error == nil, 5 Header() error != nil
+	Resp    []int64  `json:"resp,omitempty"`
+	RespTok []uint64 `json:"resp_tok,omitempty"`
 	// AllocMiB: MiB allocated from the Go heap during the scan (Job.Alloc), which includes the
 	// 32 MiB read buffer of every Start and the copy of whatever a C inflater produced
 	AllocMiB int64 `json:"alloc_mib,omitempty"`
@@ -240,6 +247,37 @@ func runUnit(j *Job, u int) Obs {
 			runtime.ReadMemStats(&m1)
 			o.AllocMiB = int64((m1.TotalAlloc - m0.TotalAlloc) >> 20)
 		}
+	case "session":
+		data := j.Data
+		if u >= 0 && u <= len(data) {
+			data = data[:u]
+		}
+		s := newScanner(data, j)
+		for _, c := range j.Calls {
+			switch c {
+			case 0:
+				if s.Scan() {
+					o.Resp, o.RespTok = append(o.Resp, 1), append(o.RespTok, Tok(s.Object()))
+				} else {
+					o.Resp, o.RespTok = append(o.Resp, 0), append(o.RespTok, 0)
+				}
+			case 1:
+				if s.Err() == nil {
+					o.Resp = append(o.Resp, 2)
+				} else {
+					o.Resp = append(o.Resp, 3)
+				}
+				o.RespTok = append(o.RespTok, 0)
+			default:
+				if _, err := s.Header(); err == nil {
+					o.Resp = append(o.Resp, 4)
+				} else {
+					o.Resp = append(o.Resp, 5)
+				}
+				o.RespTok = append(o.RespTok, 0)
+			}
+		}
+		s.Close()
 	case "trace":
 		s := newScanner(j.Data, j)
 		o.FSB = append(o.FSB, s.FullyScannedBytes())
